@@ -262,7 +262,7 @@ func (v ReceiverValidator) validateParamsCombinations(
 		diag := diagnostics.NewErrorDiagnostic(
 			newParam.FVersion.Path,
 			errMsg,
-			diagnostics.DiagReceiverRetValsInvalidSignature,
+			diagnostics.DiagReceiverInvalidBody,
 			newParam.Range,
 		)
 		return &diag
